@@ -15,14 +15,14 @@ EXTENDS Integers, Sequences, FiniteSets, Bitwise, TLC
 NoTab(P) == [j \in 1..Len(P.fns) |-> -1]
 
 \* result of evaluating one function body
-Res(v, ss, acc, cs, err) == [v |-> v, ss |-> ss, acc |-> acc, cs |-> cs, err |-> err]
+Res(v, ss, acc, cs, err) == [v |-> v, ss |-> ss, is |-> <<>>, acc |-> acc, cs |-> cs, err |-> err]
 ErrRes(e) == Res(-1, <<>>, <<>>, <<>>, e)
 
 \* abstract tracked struct: identity field, tracked fields, value specified for qspec
 \* (-1: none), cf: qspec was computed by the creator before any specify
 SRec(i, x, y) == [ident |-> i, x |-> x, y |-> y, sp |-> -1, cf |-> FALSE]
 
-St0(hs, is) == [n |-> 1, hs |-> hs, own |-> <<>>, is |-> is, r |-> 0,
+St0(hs, is) == [n |-> 1, hs |-> hs, own |-> <<>>, is |-> is, iown |-> <<>>, r |-> 0,
                 acc |-> <<>>, cs |-> <<>>]
 
 Kid(nd, v) == nd.kids[IF v + 1 > Len(nd.kids) THEN Len(nd.kids)
@@ -48,7 +48,8 @@ SfnRes(P, S, tab, vis, m, sr) ==
 
 Run(P, S, tab, vis, def, st) ==
     LET nd == def.nodes[st.n]
-        Out(v) == Res(v, [i \in 1..Len(st.own) |-> st.hs[st.own[i]]], st.acc, st.cs, "")
+        Out(v) == [Res(v, [i \in 1..Len(st.own) |-> st.hs[st.own[i]]], st.acc, st.cs, "")
+                      EXCEPT !.is = [i \in 1..Len(st.iown) |-> st.is[st.iown[i]]]]
         Go(s2) == Run(P, S, tab, vis, def, s2)
         Next(v) == Go([st EXCEPT !.n = Kid(nd, v)])
     IN
@@ -63,8 +64,10 @@ Run(P, S, tab, vis, def, st) ==
             IF cr.err # "" THEN ErrRes(cr.err)
             ELSE IF nd.op = "call"
                  THEN Go([st EXCEPT !.n = Kid(nd, cr.v), !.hs = st.hs \o cr.ss,
+                                    !.is = st.is \o cr.is,
                                     !.cs = Append(st.cs, nd.a)])
                  ELSE Go([st EXCEPT !.n = Kid(nd, 0), !.hs = st.hs \o cr.ss,
+                                    !.is = st.is \o cr.is,
                                     !.cs = Append(st.cs, nd.a),
                                     !.r = st.r | (cr.v & nd.b)])
       [] nd.op = "new"  ->
@@ -91,7 +94,8 @@ Run(P, S, tab, vis, def, st) ==
                  ELSE IF sr.cf THEN Next(0)
                  ELSE Go([st EXCEPT !.n = Kid(nd, 0), !.hs[nd.a].sp = nd.b])
       [] nd.op = "intern" ->
-            Go([st EXCEPT !.n = Kid(nd, 0), !.is = Append(st.is, [kind |-> nd.a, v |-> nd.b])])
+            Go([st EXCEPT !.n = Kid(nd, 0), !.is = Append(st.is, [kind |-> nd.a, v |-> nd.b]),
+                          !.iown = Append(st.iown, Len(st.is) + 1)])
       [] nd.op = "rdint" ->
             IF nd.a < 1 \/ nd.a > Len(st.is) THEN Next(0) ELSE Next(st.is[nd.a].v)
       [] nd.op = "calli" ->
